@@ -42,13 +42,16 @@ PASS = {"core::result::Result::ok": {"Ok": "Some", "Err": "None"},
         "core::option::Option::as_mut": None}
 
 
+_ENUM_LIMIT = [4]
+
+
 def _names_of(prog, adt):
     """{discriminant string: variant name} of a std sum type or of an enum of the program (an outcome type a maintainer
     introduced: `enum ChainLink { Holds(Value), Broken }`)"""
     if adt in UNDISCR:
         return UNDISCR[adt]
     a = getattr(prog, "adts", {}).get(adt) if adt else None
-    if a and a.get("kind") == "enum" and 2 <= len(a["variants"]) <= 24:
+    if a and a.get("kind") == "enum" and 2 <= len(a["variants"]) <= _ENUM_LIMIT[0]:
         return {str(v["discr"]): v["name"] for v in a["variants"]}
     return None
 
@@ -106,10 +109,19 @@ def _val(env, op):
     return env.get(p["l"])
 
 
-def explore(prog, fn, state0, on_call, on_return=None, max_states=60000, _depth=0, env0=None, removed_edges=()):
+def explore(prog, fn, state0, on_call, on_return=None, max_states=60000, _depth=0, env0=None, removed_edges=(), enum_limit=None):
     """walk the paths of fn.  on_call(call, state, env_lookup) -> None (no effect) | list of (state', variants or None):
     alternatives for the outcome of that call (`variants`: the Result / Option variants the destination can hold, or a
     truth value as ("B", "0"/"1")).  Returns a Result with the exits."""
+    if enum_limit is not None and _depth == 0:
+        # how large an enum of the program may be for its variants to be tracked (small outcome types by default; a rule
+        # that designates a bigger enum - an operator kind - asks for it)
+        old_limit = _ENUM_LIMIT[0]
+        _ENUM_LIMIT[0] = enum_limit
+        try:
+            return explore(prog, fn, state0, on_call, on_return, max_states, _depth, env0, removed_edges, None)
+        finally:
+            _ENUM_LIMIT[0] = old_limit
     res = Result()
     calls = {c.bb: c for c in fn.calls()}
     seen = set()
